@@ -416,6 +416,15 @@ def run_history(fx, pool, hist, rec, hh):
                 if got != want:
                     return fail(classify_listing(got, want, model), "daemon reports ids %r, registered per model %r (difference %r)" % (sorted(got), sorted(want), sorted(got ^ want)), step)
                 rec.count("registered_listing_ok")
+            # a weakly registered object can also die because this step took away its last strong holder (e.g. a forced registration displaced
+            # its one strong registration): the daemon's finalizer forgets the id, and so does the model
+            obj = arg = e = cur = res = p = u = displaced = None
+            for i, ent in list(model.ids.items()):
+                if ent["weak"] and ent["obj"]() is None:
+                    gc.collect()
+                    model.ids.pop(i, None)
+                    rec.count("weak_collected")
+            ent = None
             # cheap invariant after every step: the id -> object table
             for i in list(model.ids):
                 if d.objectsById.get(i) is None:
